@@ -85,6 +85,22 @@ func main() {
 			if len(os.Args) > 3 && os.Args[2] == "ovf" {
 				r = ruleMulOvf(c, os.Args[3])
 			}
+			if len(os.Args) > 2 && os.Args[2] == "makesize" {
+				r = ruleMakeSize(c, func(string) bool { return true })
+			}
+			if len(os.Args) > 3 && os.Args[2] == "bufcap" {
+				r = ruleBufCap(c, os.Args[3])
+			}
+			if len(os.Args) > 3 && os.Args[2] == "partial" {
+				pk := os.Args[3]
+				r = rulePartial(c, func(f string) bool { return strings.Contains(f, pk) }, true)
+			}
+			if len(os.Args) > 2 && os.Args[2] == "rowdeg" {
+				r = ruleRowDeg(c, "graph", "SparseGraph", "Neighbourhoods", "DegreeSequence")
+			}
+			if len(os.Args) > 3 && os.Args[2] == "sortless" {
+				r = ruleSortLess(c, os.Args[3])
+			}
 			if len(os.Args) > 2 && os.Args[2] == "makecap" {
 				r = ruleMakeCapAny(c, func(string) bool { return true })
 			}
@@ -120,6 +136,31 @@ func main() {
 				fmt.Println("note:", n)
 			}
 			code = 0
+		case "keeps":
+			// every exported function or method that stores memory of one parameter into another's
+			c := loadProgram(repoDir(), mambaMod, 9)
+			E := c.Eff()
+			var out []string
+			for _, fn := range c.Funcs {
+				if fn.Blocks == nil || fn.Synthetic != "" || fn.Parent() != nil || E.sums[fn] == nil {
+					continue
+				}
+				seen := map[string]bool{}
+				for _, e := range E.sums[fn].Stores {
+					if e.src.Root >= 0 && e.src.Root < len(fn.Params) && e.dst.Root >= 0 && e.dst.Root < len(fn.Params) && e.src.Root != e.dst.Root {
+						k := fmt.Sprintf("%s: %s <- %s", c.short(fn), E.apString(fn, e.dst), E.apString(fn, e.src))
+						if !seen[k] {
+							seen[k] = true
+							out = append(out, k)
+						}
+					}
+				}
+			}
+			sort.Strings(out)
+			for _, l := range out {
+				fmt.Println(l)
+			}
+			return
 		case "sticky":
 			c := loadProgram(repoDir(), mambaMod, 9)
 			E := c.Eff()
